@@ -70,8 +70,10 @@ def cells(tier):
             out.append({"id": f"dims|{ka}|{kb}", "group": "dims", "ka": ka, "kb": kb})
     for d in (2, 3, 4):
         for sa in R.SYSTEMS[d]:
-            for ka in KINDS:
+            for ka in KINDS + ("regular", "np2"):
                 out.append({"id": f"ops|{d}{R.sysname(sa)}|{ka}", "group": "ops", "d": d, "sa": R.sysname(sa), "ka": ka})
+            for ka in KINDS:
+                out.append({"id": f"conv|{d}{R.sysname(sa)}|{ka}", "group": "conv", "d": d, "sa": R.sysname(sa), "ka": ka})
     return out
 
 
@@ -107,7 +109,7 @@ def _expected_backend(op, ka, kb):
 
 
 def check_case(cell, elems, ctx):
-    {"sig": _check_sig, "dims": _check_dims, "ops": _check_ops}[cell["group"]](cell, elems, ctx)
+    {"sig": _check_sig, "dims": _check_dims, "ops": _check_ops, "conv": _check_conv}[cell["group"]](cell, elems, ctx)
     ctx.evaluations -= 1
 
 
@@ -279,6 +281,96 @@ def _check_dims(cell, elems, ctx):
             ctx.nontrivial(key=[ka, kb, da, db], sample={"dims": [da, db], "backends": be})
 
 
+_TOKENS = (("energy", "t"), ("theta", "theta"), ("mass", "tau"), ("rho", "rho"), ("phi", "phi"), ("eta", "eta"), ("tau", "tau"),
+           ("px", "x"), ("py", "y"), ("pz", "z"), ("pt", "rho"), ("x", "x"), ("y", "y"), ("z", "z"), ("t", "t"))
+_KIND_CLASS = {"object": "object", "np1": "numpy", "flat": "awkward-array", "record": "awkward-record"}
+
+
+def _parse_conversion(name):
+    """to_xythetatau -> ('xy', 'theta', 'tau'): coordinate system named by a conversion method (None: not a named conversion)"""
+    rest, out = name[3:], []
+    while rest:
+        for tok, geo in _TOKENS:
+            if rest.startswith(tok):
+                out.append(geo)
+                rest = rest[len(tok):]
+                break
+        else:
+            return None
+    if len(out) < 2:
+        return None
+    return ("".join(out[:2]),) + tuple(out[2:])
+
+
+def _check_conv(cell, elems, ctx):
+    """conversions, projections, embeddings and like(): the result keeps backend kind (a record stays a record) and flavor,
+    has the dimension and coordinate system the method names; values belong to C04"""
+    d, ka = cell["d"], cell["ka"]
+    sa = opcheck.parse_system(cell["sa"])
+    variant = f"{d}{cell['sa']}"
+    for mom in (False, True):
+        A = _mk(ka, d, elems, "a", momentum=mom, system=sa)
+        fl = "m" if mom else "g"
+        calls = []
+        for name in sorted(n for n in dir(A) if n.startswith("to_") and n != "to_beta3"):
+            if name[3:] in ("2D", "3D", "4D") or name.startswith("to_Vector"):
+                td = int(name[-2])
+                exp = tuple(sa[: td - 1]) + (("z",) if d < 3 <= td else ()) + (("t",) if d < 4 == td else ())
+            else:
+                exp = _parse_conversion(name)
+                if exp is None:
+                    continue
+                td = len(exp) + 1
+            calls.append((name, lambda name=name: getattr(A, name)(), td, exp))
+        for td in (2, 3, 4):
+            for kb in ("object", "np1", "flat"):
+                for si, sb in enumerate(R.SYSTEMS[td]):
+                    if (si + td + len(kb)) % 4:
+                        continue
+                    exp = tuple(sa[: td - 1]) + (("z",) if d < 3 <= td else ()) + (("t",) if d < 4 == td else ())
+                    B = _mk(kb, td, elems, "b", momentum=(si % 2 == 0), system=sb)
+                    calls.append((f"like({td}D {R.sysname(sb)} {kb})", lambda B=B: A.like(B), td, exp))
+        for name, f, td, exp in calls:
+            ctx.evaluation()
+            where = f"{name} of a {fl} {variant} {ka}"
+            opn = name.split("(")[0]
+            try:
+                r = f()
+            except Exception as e:  # noqa: BLE001
+                ctx.fail(f"exception:{type(e).__name__}", f"{where} raised {type(e).__name__}: {e!s:.200}", op=opn, variant=variant, backend=ka)
+                continue
+            k = lattice.classify(r)
+            if k != _KIND_CLASS[ka]:
+                ctx.fail(f"backend:{k}", f"{where}: result is {k} ({type(r).__name__}), expected {_KIND_CLASS[ka]}", op=opn,
+                         variant=variant, backend=ka)
+                continue
+            if obs.is_momentum(r) != mom:
+                ctx.fail("flavor", f"{where}: result {type(r).__name__} is {'momentum' if obs.is_momentum(r) else 'generic'}", op=opn,
+                         variant=variant, backend=ka)
+                continue
+            if obs.dim_of(r) != td:
+                ctx.fail("dimension", f"{where}: result is {obs.dim_of(r)}D, expected {td}D", op=opn, variant=variant, backend=ka)
+                continue
+            try:
+                sysr = obs.system_of(r)
+            except Exception as e:  # noqa: BLE001
+                ctx.fail("result_type", f"{where}: coordinates of the result are not readable: {e!r}", op=opn, variant=variant, backend=ka)
+                continue
+            if sysr != exp:
+                ctx.fail("system", f"{where}: result stored as {R.sysname(sysr)}, expected {R.sysname(exp)}", op=opn, variant=variant,
+                         backend=ka)
+                continue
+            if mom:
+                # a momentum result answers the momentum spellings
+                try:
+                    r.pt, r.px
+                except Exception as e:  # noqa: BLE001
+                    ctx.fail("behavior", f"{where}: momentum result has no working .pt/.px ({type(e).__name__})", op=opn,
+                             variant=variant, backend=ka)
+                    continue
+            ctx.nontrivial(key=[cell["id"], fl, name], sample={"config": where, "result": type(r).__name__, "system": R.sysname(sysr)})
+
+
 def _same(ctx, what, r1, r2, op, be, variant):
     k1, k2 = lattice.classify(r1), lattice.classify(r2)
     if type(r1) is not type(r2):
@@ -304,8 +396,9 @@ def _check_ops(cell, elems, ctx):
     variant = f"{d}{cell['sa']}"
     for mom in (False, True):
         A = _mk(ka, d, elems, "a", mom, sa)
-        for kb in KINDS:
-            B = _mk(kb, d, elems, "b", False, R.SYSTEMS[d][zlib.crc32(cell["id"].encode()) % len(R.SYSTEMS[d])])
+        # two-dimensional operands (a 2 x 3 NumPy array, a regular 2 x 3 Awkward array) pair with each other and with objects
+        for kb, momb in itertools.product(KINDS if ka in KINDS else ("regular", "np2", "object"), (False, True)):
+            B = _mk(kb, d, elems, "b", momb, R.SYSTEMS[d][zlib.crc32(cell["id"].encode()) % len(R.SYSTEMS[d])])
             be = f"{ka}+{kb}"
             pairs = [("a+b", lambda: A + B, lambda: A.add(B)), ("a-b", lambda: A - B, lambda: A.subtract(B)),
                      ("a@b", lambda: A @ B, lambda: A.dot(B)), ("a==b", lambda: A == B, lambda: A.equal(B)),
@@ -318,7 +411,7 @@ def _check_ops(cell, elems, ctx):
                     ctx.fail(f"operator_raises:{type(e).__name__}", f"{what} [{variant}; {be}] raised {type(e).__name__}: {e!s:.200}",
                              op=what, variant=variant, backend=be)
                     continue  # only reached for a recorded known finding
-                if not _same(ctx, f"{what} [{variant}; {be}; momentum={mom}]", r1, r2, what, be, variant):
+                if not _same(ctx, f"{what} [{variant}; {be}; momentum={mom},{momb}]", r1, r2, what, be, variant):
                     return
         s = elems[0]["s"]["factor"]
         nrm = {2: "rho", 3: "mag", 4: "tau"}[d]
